@@ -45,10 +45,69 @@ def fits40(m):
 
 
 class LU:
-    def __init__(self, typ, defs, dim, mag, named, base=None):
+    def __init__(self, typ, defs, dim, mag, named, base=None, factors=()):
         self.typ, self.defs, self.dim, self.mag, self.named = typ, defs, dim, mag, named
+        self.factors = factors  # library units a compound member is built from
         # the named unit that remains when an anonymous scaling is stripped: (type, magnitude)
         self.base = base if base is not None else (typ, mag)
+
+
+def compound_groups(units):
+    """Anonymous compound units (products and quotients of two library units) grouped by dimension.
+    Two different compounds of equal dimension AND magnitude (N*m and W*s) are not covered by the
+    documented limitation - that is about NAMED units - so their order must still be strict."""
+    us = [u for u in units if not u.has_origin]
+    g = {}
+    for x, y in itertools.combinations_with_replacement(us, 2):
+        g.setdefault(model.key(model.mul(x.dim, y.dim)), []).append(
+            LU("decltype(au::%s{} * au::%s{})" % (x.name, y.name), "", model.mul(x.dim, y.dim), model.mul(x.mag, y.mag), False,
+               factors=(x.name, y.name)))
+    for x, y in itertools.permutations(us, 2):
+        g.setdefault(model.key(model.div(x.dim, y.dim)), []).append(
+            LU("decltype(au::%s{} / au::%s{})" % (x.name, y.name), "", model.div(x.dim, y.dim), model.div(x.mag, y.mag), False,
+               factors=(x.name, y.name)))
+    return {k: v for k, v in g.items() if len(v) >= 2}
+
+
+def collision_families(units):
+    fam = {}
+    for u in units:
+        if not u.has_origin:
+            fam.setdefault((model.key(u.dim), model.key(u.mag)), []).append(u.name)
+    return [set(v) for v in fam.values() if len(v) > 1]
+
+
+def compound_list(rnd, groups, by_dim, families):
+    dk = rnd.choice(sorted(groups, key=repr))
+    grp = groups[dk]
+    n = rnd.choice([2, 2, 3, 3, 4])
+    # prefer members of EQUAL magnitude half of the time: that is where only the last tie-breakers decide
+    first = rnd.choice(grp)
+    same = [m for m in grp if model.key(m.mag) == model.key(first.mag) and m.typ != first.typ]
+    members = [first]
+    while len(members) < n:
+        r = rnd.random()
+        if same and r < 0.5:
+            c = rnd.choice(same)
+        elif r < 0.65 and by_dim.get(dk):
+            u = rnd.choice(by_dim[dk])
+            c = LU("au::%s" % u.name, "", u.dim, u.mag, True, factors=(u.name,))
+        elif r < 0.8:
+            b = rnd.choice(grp)
+            sm = rnd_mag(rnd)
+            c = LU("decltype(%s{} * (%s))" % (b.typ, mag_cpp(sm)), "", b.dim, model.mul(b.mag, sm), False, factors=b.factors)
+        else:
+            c = rnd.choice(grp)
+        if all(c.typ != m.typ for m in members):
+            members.append(c)
+    named = set(f for m in members for f in m.factors)
+    if any(len(named & fam) > 1 for fam in families):
+        return None  # two distinct named units of identical dimension and magnitude meet: documented limitation
+    # two NAMED members of identical magnitude are the documented limitation as well
+    for a, b in itertools.combinations(members, 2):
+        if a.named and b.named and model.key(a.mag) == model.key(b.mag):
+            return None
+    return members
 
 
 def build_lists(units, rnd, n_lists):
@@ -58,11 +117,20 @@ def build_lists(units, rnd, n_lists):
             continue  # origins matter for point units only; keep C07 about quantity units
         by_dim.setdefault(model.key(u.dim), []).append(u)
     dims = [k for k, v in by_dim.items() if len(v) >= 2]
+    groups = compound_groups(units)
+    families = collision_families(units)
     lists = []
     skipped = 0
     tries = 0
     while len(lists) < n_lists and tries < n_lists * 20:
         tries += 1
+        if rnd.random() < 0.2:
+            cl = compound_list(rnd, groups, by_dim, families)
+            if cl is None:
+                skipped += 1
+            else:
+                lists.append(cl)
+            continue
         irr = rnd.random() < 0.12
         n = rnd.choice([2, 2, 3, 3, 4])
         dk = rnd.choice(dims)
@@ -85,17 +153,30 @@ def build_lists(units, rnd, n_lists):
                 ex = "decltype(au::%s{} * (%s))" % (base.name, mag_cpp(sm))
                 if r < 0.75:
                     members.append(LU("N%d" % i, "struct N%d : %s {};" % (i, ex), base.dim, mag, True))
-                else:
+                elif r < 0.9 or not members:
                     members.append(LU(ex, "", base.dim, mag, False, base=("au::%s" % base.name, base.mag)))
+                else:
+                    # the SAME unit as an earlier member, spelled as a scaling of a different library unit:
+                    # dimension and magnitude tie, so only the scale-factor tie-breaker orders the two
+                    other = rnd.choice(lib)
+                    tgt = rnd.choice(members)
+                    sm2 = model.div(tgt.mag, other.mag)
+                    if not sm2 or not fits40(sm2) or not model.mag_is_rational(sm2):
+                        continue
+                    members.append(LU("decltype(au::%s{} * (%s))" % (other.name, mag_cpp(sm2)), "", base.dim, tgt.mag, False,
+                                      base=("au::%s" % other.name, other.mag)))
         # exclusion: two DISTINCT unit types of identical magnitude (documented ordering limitation);
         # anonymous scaled units of equal magnitude are the same type when built from the same base
-        bad = False
+        bad = len(members) < 2
         for a, b in itertools.combinations(members, 2):
-            if model.key(a.mag) == model.key(b.mag) and a.typ != b.typ:
+            # two distinct NAMED units of identical magnitude: the documented limitation
+            if a.named and b.named and model.key(a.mag) == model.key(b.mag) and a.typ != b.typ:
                 bad = True
             # ... and so are the named units left after stripping anonymous scalings (Hertz vs Becquerel)
             if model.key(a.base[1]) == model.key(b.base[1]) and a.base[0] != b.base[0]:
                 bad = True
+            # (a named and an anonymous unit, or two anonymous scalings of different-magnitude bases,
+            # are ordered by the avoidance / scale-factor tie-breakers even when their magnitudes tie)
         # anonymous scaled unit equal to a named library unit is also a distinct type
         if bad:
             skipped += 1
@@ -152,11 +233,15 @@ def body(ctx):
     results, stats = witness.judge(ctx, items, configs, prelude=prelude, batch=25, tag="c07")
     nbad = witness.report_mismatches(ctx, items, results, prelude=prelude)
     nirr = sum(1 for it in items if not it.meta["rational"])
+    ncomp = sum(1 for l in lists if any(m.factors for m in l))
+    ntie = sum(1 for l in lists if any(model.key(a.mag) == model.key(b.mag) for a, b in itertools.combinations(l, 2)))
+    ctx.require(ncomp >= len(lists) // 10, "only %d lists with compound units" % ncomp)
+    ctx.require(ntie >= len(lists) // 25, "only %d lists with two members of equal magnitude" % ntie)
     ctx.coverage.update(dict(
         evaluations=len(items) * len(configs), distinct_nontrivial=len(items),
-        rule="one program per seeded list of 2-4 same-dimension units (library units, named and anonymous scaled units with numerators/denominators below 2^40, pi and root factors); asserts integer ratios, exact gcd magnitude read out of the type, identity under every permutation and repetition, winner-is-an-input, nesting equivalence, std::common_type; lists with two distinct units of identical magnitude are excluded",
+        rule="one program per seeded list of 2-4 same-dimension units (library units, named and anonymous scaled units with numerators/denominators below 2^40, pi and root factors); plus, in every fifth list, anonymous products/quotients of library units of one dimension (N*m, W*s, J, scaled forms; equal magnitudes preferred) and respelled scalings of equal magnitude; asserts integer ratios, exact gcd magnitude read out of the type, identity under every permutation and repetition, winner-is-an-input, nesting equivalence, std::common_type; lists in which two distinct NAMED units of identical magnitude meet are excluded",
         samples=[dict(key=items[0].key, code=items[0].code)], exhaustive=False,
-        lists=len(items), lists_irrational=nirr, lists_skipped_collision=skipped, mismatches=nbad, configs=[c.name for c in configs], engine_stats=stats))
+        lists=len(items), lists_irrational=nirr, lists_skipped_collision=skipped, lists_compound=ncomp, lists_equal_magnitude_tie=ntie, mismatches=nbad, configs=[c.name for c in configs], engine_stats=stats))
     ctx.assumptions += ["'largest' is decided as: the common unit's magnitude equals the base-wise minimum of the inputs' exponents (missing base = 0)"]
 
 
